@@ -482,7 +482,12 @@ pub fn vclass(v: &Violation) -> String {
         "R2-panic" => {
             // panic location without line number noise: keep file and message head
             let d = v.detail.split(" @ ").collect::<Vec<_>>();
-            format!("R2-panic:{}", d.last().unwrap_or(&""))
+            let loc = d.last().copied().unwrap_or("");
+            let loc = match loc.rfind("/src/") {
+                Some(i) => &loc[i + 1..],
+                None => loc,
+            };
+            format!("R2-panic:{}", loc)
         }
         r => r.to_string(),
     }
